@@ -121,6 +121,10 @@ def r1234_forward(repo: Repo, rep):
                 continue
             parts = res_arg.values
             kinds = [_mapping_kind(v) for v in parts]
+            stale = [dump(v)[:60] for v, k in zip(parts, kinds) if k is None and _self_state(v)]
+            if stale:
+                rep.violation(R2, site, fi.fq, "the residual's entries stem from this call's draw", f"entries read from state stored on the condition: {stale}", f"state on self: {stale}")
+                continue
             unknown = [dump(v)[:60] for v, k in zip(parts, kinds) if k is None]
             if unknown:
                 rep.undecided(R3, site, fi.fq, "every merged part is a recognised name-keyed mapping", str(unknown))
@@ -184,6 +188,15 @@ def _shape(r):
         names.append(dump(e.func))
         e = e.args[0]
     return " ∘ ".join(names) or dump(r)[:60]
+
+
+def _self_state(v: ast.AST) -> bool:
+    """an element of an attribute of self (no call involved): something an earlier call stored on the condition"""
+    x = v
+    while isinstance(x, ast.Subscript):
+        x = x.value
+    ch = attr_chain(x)
+    return isinstance(v, ast.Subscript) and ch is not None and ch.startswith("self.") and ch.count(".") == 1 and ch not in ("self.parameter", "self.data_functions")
 
 
 def _mapping_kind(v: ast.AST):
